@@ -119,8 +119,12 @@ bool FeatureChecker::isRateDisallowedInSymbolic(const expression_t& e)
             return false;
         }
 
+        // a rate of something that does not refer to a variable (e.g. x'') has no symbol to inspect
+        const symbol_t clock_symbol = clock.get(0).get_symbol();
+        if (clock_symbol == symbol_t())
+            return true;
         // rates over hybrid clocks are allowed, because they are ignored/abstracted in symbolic analysis
-        if (clock.get(0).get_symbol().get_type().is(Constants::HYBRID))
+        if (clock_symbol.get_type().is(Constants::HYBRID))
             return false;
 
         if (rate.get_kind() != Constants::CONSTANT)
